@@ -2,7 +2,7 @@ import GeomV.C08.Model
 import GeomV.C08.Spec
 /-!
 Driver for C08.  `geomv_c08 judge` reads the harness's lines
-  rt <class> <A def> <B def> <n> (<lon> <lat>)*n => A <srdump> B <srdump> T <nilAB> <nilBA> R (<q> <p2> <q2>)*n
+  rt <class> <A def> <B def> <n> (<lon> <lat>)*n => A <srdump> B <srdump> T <nilAB> <nilBA> H <hist> R (<q> <p2> <q2>)*n
 and prints one verdict per line:
   OK <class>            every position satisfies the Spec and the Float model agrees with the code
   DIFF <class> <why>    the code's answer differs from the Float model beyond the stated tolerance
@@ -176,7 +176,7 @@ def judgeLine (line : String) : String :=
       match parseSR r with
       | some (a, "B" :: r) =>
         match parseSR r with
-        | some (b, "T" :: nab :: nba :: "R" :: r) =>
+        | some (b, "T" :: nab :: nba :: "H" :: hist :: "R" :: r) =>
           let cls := classOf a b
           match parsePositions (n.toNat?.getD 0) pts with
           | none => "BAD positions"
@@ -187,7 +187,9 @@ def judgeLine (line : String) : String :=
               let vs := ts.map fun (t, e) => judgeTrip a b (nab == "1") (nba == "1") t e
               let unexpl := vs.filterMap fun v => match v.spec with | some (w, false) => some w | _ => none
               let expl := vs.filterMap fun v => match v.spec with | some (w, true) => some w | _ => none
-              let diffs := vs.filterMap fun v => v.diff
+              -- the reused transformers' answers must be those of transformers built fresh per call
+              let diffs := (vs.filterMap fun v => v.diff) ++
+                (if hist == "1" then ["history-dependent reused-transformer-answer-differs-from-fresh-transformer"] else [])
               -- an unexplained violation outranks a correspondence difference, which outranks a
               -- violation that a recorded finding explains (so that a finding never hides a change)
               match unexpl, diffs, expl, wgsCheck a adef with
